@@ -38,6 +38,10 @@ type facts struct {
 	LockUse      [][3]string         `json:"lock_use"`      // file, func, Lock|RLock|none
 	SQLNid       [][3]string         `json:"sql_nid"`       // file, func, verdict for every raw SQL literal on keto_relation_tuples
 	Misc         map[string]string   `json:"misc"`
+	// translated expressions: (file, func, Go text, Lean definition name); the Lean text is in leanDefs
+	DepthConds [][4]string `json:"depth_conds"`
+	DepthArgs  [][4]string `json:"depth_args"`
+	leanDefs   []string
 	files        map[string]*ast.File
 	fset         *token.FileSet
 }
@@ -140,6 +144,91 @@ func exprStringNoSet(e ast.Expr) string {
 	return "?"
 }
 
+// leanExpr translates a Go expression over integer variables and literals (comparison,
+// && || !, + - *, parentheses) to a Lean term; isBool says whether the result is Bool.
+// Free identifiers become the variables of the definition. Anything else is refused.
+func leanExpr(e ast.Expr, vars map[string]bool) (text string, isBool bool, ok bool) {
+	switch x := e.(type) {
+	case *ast.ParenExpr:
+		t, b, ok := leanExpr(x.X, vars)
+		return "(" + t + ")", b, ok
+	case *ast.Ident:
+		if x.Name == "true" || x.Name == "false" {
+			return x.Name, true, true
+		}
+		vars[x.Name] = true
+		return x.Name, false, true
+	case *ast.BasicLit:
+		if x.Kind == token.INT {
+			return "(" + x.Value + " : Int)", false, true
+		}
+	case *ast.UnaryExpr:
+		t, b, ok := leanExpr(x.X, vars)
+		if !ok {
+			return "", false, false
+		}
+		switch x.Op {
+		case token.NOT:
+			if b {
+				return "(!" + t + ")", true, true
+			}
+		case token.SUB:
+			if !b {
+				return "(-" + t + ")", false, true
+			}
+		}
+	case *ast.BinaryExpr:
+		l, lb, ok1 := leanExpr(x.X, vars)
+		r, rb, ok2 := leanExpr(x.Y, vars)
+		if !ok1 || !ok2 {
+			return "", false, false
+		}
+		switch x.Op {
+		case token.LAND, token.LOR:
+			if lb && rb {
+				op := map[token.Token]string{token.LAND: "&&", token.LOR: "||"}[x.Op]
+				return "(" + l + " " + op + " " + r + ")", true, true
+			}
+		case token.LSS, token.LEQ, token.GTR, token.GEQ, token.EQL, token.NEQ:
+			if !lb && !rb {
+				op := map[token.Token]string{token.LSS: "<", token.LEQ: "≤", token.GTR: ">", token.GEQ: "≥", token.EQL: "=", token.NEQ: "≠"}[x.Op]
+				return "decide (" + l + " " + op + " " + r + ")", true, true
+			}
+		case token.ADD, token.SUB, token.MUL:
+			if !lb && !rb {
+				op := map[token.Token]string{token.ADD: "+", token.SUB: "-", token.MUL: "*"}[x.Op]
+				return "(" + l + " " + op + " " + r + ")", false, true
+			}
+		}
+	}
+	return "", false, false
+}
+
+// leanDef emits `def <name> (v1 v2 … : Int) : Bool|Int := <term>` with the free variables in
+// alphabetical order (the order the hand-written expectations in FactsTie.lean rely on).
+func (f *facts) leanDef(name string, e ast.Expr, wantBool bool) bool {
+	vars := map[string]bool{}
+	t, b, ok := leanExpr(e, vars)
+	if !ok || b != wantBool {
+		return false
+	}
+	var vs []string
+	for v := range vars {
+		vs = append(vs, v)
+	}
+	sort.Strings(vs)
+	ty := "Int"
+	if wantBool {
+		ty = "Bool"
+	}
+	params := ""
+	if len(vs) > 0 {
+		params = " (" + strings.Join(vs, " ") + " : Int)"
+	}
+	f.leanDefs = append(f.leanDefs, fmt.Sprintf("def %s%s : %s := %s", name, params, ty, t))
+	return true
+}
+
 // depth extracts, per function, the guards on the depth parameter and the depth
 // arguments handed to the engine's recursive functions.
 func (f *facts) depth(repo, rel, depthVar string, callees map[string]bool) {
@@ -152,6 +241,15 @@ func (f *facts) depth(repo, rel, depthVar string, callees map[string]bool) {
 		name := funcName(fd)
 		ast.Inspect(fd.Body, func(n ast.Node) bool {
 			switch x := n.(type) {
+			case *ast.IfStmt:
+				// the whole condition of every `if` that tests the depth, translated
+				if mentions(x.Cond, depthVar) {
+					dn := fmt.Sprintf("cond%d", len(f.DepthConds))
+					if !f.leanDef(dn, x.Cond, true) {
+						die("%s %s: cannot translate the condition %s", rel, name, exprString(f.fset, x.Cond))
+					}
+					f.DepthConds = append(f.DepthConds, [4]string{rel, name, exprString(f.fset, x.Cond), dn})
+				}
 			case *ast.BinaryExpr:
 				if id, ok := x.X.(*ast.Ident); ok && id.Name == depthVar {
 					if _, ok := x.Y.(*ast.BasicLit); ok && (x.Op == token.LEQ || x.Op == token.LSS || x.Op == token.GEQ || x.Op == token.GTR || x.Op == token.EQL) {
@@ -172,6 +270,11 @@ func (f *facts) depth(repo, rel, depthVar string, callees map[string]bool) {
 				var args []string
 				for _, a := range x.Args {
 					if mentions(a, depthVar) {
+						dn := fmt.Sprintf("arg%d", len(f.DepthArgs))
+						if !f.leanDef(dn, a, false) {
+							die("%s %s: cannot translate the depth argument %s of %s", rel, name, exprString(f.fset, a), callee)
+						}
+						f.DepthArgs = append(f.DepthArgs, [4]string{rel, name, callee, dn})
 						args = append(args, exprString(f.fset, a))
 					} else if id, ok := a.(*ast.Ident); ok && (id.Name == "true" || id.Name == "false") {
 						args = append(args, id.Name)
@@ -597,6 +700,13 @@ func main() {
 	table3("initCalls", f.InitCalls)
 	table3("lockUse", f.LockUse)
 	table3("sqlNid", f.SQLNid)
+	// translated depth conditions and depth arguments (regenerated model fragments)
+	b.WriteString("\n/-! Depth tests and depth arguments of the engines, translated from the Go expressions. -/\n")
+	for _, d := range f.leanDefs {
+		b.WriteString(d + "\n")
+	}
+	table4("depthConds", f.DepthConds)
+	table4("depthArgs", f.DepthArgs)
 	b.WriteString("\nend Keto.Facts\n")
 	if *out != "" {
 		if err := os.WriteFile(*out, []byte(b.String()), 0o644); err != nil {
